@@ -158,19 +158,27 @@ def moves(ctx, P, views, iters):
             for st in w.paths_of(cls, fn):
                 if st.status == "raise":
                     continue
-                removed = {}
+                removed, inserted = {}, {}
                 for i, e in enumerate(st.events):
                     if e.kind != "call":
                         continue
                     lo = listop(e)
                     tok = lo[4][-1] if lo[4] else "?"
+                    first = None
                     if lo[0] == "rem":
                         removed[tok] = i
-                    elif lo[0] == "ins" and tok in removed:
+                        if tok in inserted:
+                            first = inserted.pop(tok)
+                    elif lo[0] == "ins":
+                        if tok in removed:
+                            first = removed[tok]
+                        else:
+                            inserted[tok] = i
+                    if first is not None:
                         n += 1
-                        facts = rules.path_condition(st.events, removed[tok])
+                        facts = rules.path_condition(st.events, first)
                         changed = [v for a, v in facts.items() if a[0] == "eq" and set(x.split(".")[-1] for x in a[1:]) == {"priority_class", "prev_priority_class"} and all(x.startswith(tok + ".") for x in a[1:])]
-                        ob.ok("%s:%s" % (e.frame.qual, m), "%s (from %s): move of %s under %s" % (e.frame.qual, m, tok, [x.text for x in st.events[:removed[tok]] if x.kind == "guard"]))
+                        ob.ok("%s:%s" % (e.frame.qual, m), "%s (from %s): move of %s under %s" % (e.frame.qual, m, tok, [x.text for x in st.events[:first] if x.kind == "guard"]))
                         if (not changed or changed[0] is not False) and (e.frame.qual, m) not in done:
                             done.add((e.frame.qual, m))
                             ctx.violation(ob, "R1.tail-insertion", "%s.%s" % (cls.name, m), "move of %s within individuals" % tok.split("__")[0], "requeued-without-priority-change",
